@@ -344,6 +344,13 @@ def deAttr (f : FieldD) (attrs : List (String × String)) : Option Vals :=
       | _, _ => none) (some .nil)
   | .struct _ => none
 
+/-- the items of an attribute member whose type is a wrapper struct: every attribute value is parsed (by `step`)
+    as the content of that struct; one failure fails the whole -/
+def foldAttrStruct (n : String) (step : String → Option FVals) (raw : List String) : Option Vals :=
+  raw.foldr (fun s acc => match acc, step s with
+    | some vs, some fs => some (Vals.cons (.struct n fs) vs)
+    | _, _ => none) (some .nil)
+
 /-- text member: the element's character data; none at all leaves the member unset -/
 def deText (f : FieldD) (text : Option String) : Option Vals :=
   match f.leaf with
@@ -375,10 +382,8 @@ def assemble (P : Prog) (ns : Option String) (attrs : List (String × String)) (
            match P.find n with
            | none => none
            | some inner =>
-             ((attrs.filter (fun a => a.1 == f.rename)).map (·.2)).foldr (fun s acc =>
-               match acc, assemble P none [] (txt s) fuel inner.fields 0 [] with
-               | some vs, some fs => some (Vals.cons (.struct n fs) vs)
-               | _, _ => none) (some .nil))
+             foldAttrStruct n (fun s => assemble P none [] (txt s) fuel inner.fields 0 [])
+               ((attrs.filter (fun a => a.1 == f.rename)).map (·.2)))
       | .text => deText f text
       | .elem => some (Vals.ofList ((claimed.filter (fun c => c.1 == i)).map (·.2)))
       | .flatten =>
